@@ -12,7 +12,9 @@ import (
 
 type verifNoPruning struct{}
 
-func (verifNoPruning) MarkForEviction([]byte, []byte, data.ModifiedHashes, data.ModifiedHashes) error { return nil }
+func (verifNoPruning) MarkForEviction([]byte, []byte, data.ModifiedHashes, data.ModifiedHashes) error {
+	return nil
+}
 func (verifNoPruning) PruneTrie(rootHash []byte, identifier data.TriePruningIdentifier, tsm data.StorageManager) {
 }
 func (verifNoPruning) CancelPrune(rootHash []byte, identifier data.TriePruningIdentifier, tsm data.StorageManager) {
@@ -32,11 +34,26 @@ func verifNewAccountsDB() *state.AccountsDB {
 }
 
 // one symbolic operation on the accounts database, the way the transaction processors use it
+// addresses removed (successfully) since the snapshot, and whether one of them was loaded and saved again
+var verifRemovedSinceSnapshot = map[string]bool{}
+var verifRecreatedAfterRemoval bool
+
 func verifAccountsOp(adb *state.AccountsDB, tag string) {
-	addr := verifAddrs[verifChoice(tag+"account", len(verifAddrs))]
+	ai := verifChoice(tag+"account", len(verifAddrs))
+	addr := verifAddrs[ai]
 	op := verifChoice(tag+"op", 6)
+	if tag == "post" && op != 5 && verifRemovedSinceSnapshot[string(addr)] {
+		verifRecreatedAfterRemoval = true
+	}
 	if op == 5 {
-		_ = adb.RemoveAccount(addr)
+		// a failing RemoveAccount (e.g. for an account whose data trie was changed and not yet committed) leaves
+		// partial effects behind; its callers revert to the snapshot taken before the call
+		before := adb.JournalLen()
+		if adb.RemoveAccount(addr) != nil {
+			verifAssert(adb.RevertToSnapshot(before) == nil, "revert of a failed removal")
+		} else if tag == "post" {
+			verifRemovedSinceSnapshot[string(addr)] = true
+		}
 		return
 	}
 	acc, err := adb.LoadAccount(addr)
@@ -121,6 +138,8 @@ func verifCodeRefs(adb *state.AccountsDB, when string) {
 
 // C06 + C07: prefix of operations, snapshot, further operations, revert; optionally a commit first.
 func Verif_C06_revert() {
+	verifRemovedSinceSnapshot = map[string]bool{}
+	verifRecreatedAfterRemoval = false
 	adb := verifNewAccountsDB()
 	if verifParam("preset") == 1 {
 		// fixed start: both accounts deployed with the same code, the first one with a stored value, all committed
@@ -154,6 +173,10 @@ func Verif_C06_revert() {
 		verifCodeRefs(adb, "after snapshot")
 	}
 	verifAssert(adb.RevertToSnapshot(snapshot) == nil, "revert ok")
+	// known finding: an account removed after the snapshot and then loaded and saved again (a fresh account under
+	// the same address) leaves its new, empty data trie in the data-trie cache; after the revert the restored
+	// account is served that cached trie, so its storage reads as empty until the next commit
+	verifKnown("C06-data-trie-cache-after-remove-and-recreate", verifRecreatedAfterRemoval)
 	r1, v1 := verifView(adb)
 	verifAssert(verifSameView(r0, v0, r1, v1), "revert restores root, balances, nonces, owners, code, metadata and storage")
 	verifCodeRefs(adb, "after revert")
